@@ -273,6 +273,31 @@ FirstBadShown ==
     phase = "solved" /\ ~opts.bf /\ ~proven /\ ~TimedOut =>
         Presented.t = "status" /\ Presented.status # "Optimal"
 
+-----------------------------------------------------------------------------
+(* The stability CHECKER of the library (C06), structured like its loop:    *)
+(* assignment counts, worst assigned lecturer-rank per project / lecturer   *)
+(* with an explicit "nobody assigned" value, then conditions 2, 3a, 3b, 3c  *)
+(* for every acceptable pair.                                               *)
+Nobody == 0
+WorstP(I, m, p) == IF AssignedP(I, m, p) = {} THEN Nobody
+                   ELSE Max({LRank(I, I.plec[p], t) : t \in AssignedP(I, m, p)})
+WorstL(I, m, l) == IF AssignedL(I, m, l) = {} THEN Nobody
+                   ELSE Max({LRank(I, l, t) : t \in AssignedL(I, m, l)})
+CheckerBlocks(I, m, s, j) ==
+    LET p == I.prefs[s][j]   l == I.plec[p]
+        bp2  == m[s] = 0 \/ I.ranks[s][j] < SRank(I, s, m[s])
+        pu   == PCount(I, m, p) < I.puq[p]
+        lu   == LCount(I, m, l) < I.luq[l]
+        bp3a == pu /\ lu
+        bp3b == pu /\ ~lu /\ (\/ (m[s] # 0 /\ I.plec[m[s]] = l)
+                               \/ (WorstL(I, m, l) # Nobody /\ LRank(I, l, s) < WorstL(I, m, l)))
+        bp3c == ~pu /\ WorstP(I, m, p) # Nobody /\ LRank(I, l, s) < WorstP(I, m, p)
+    IN  bp2 /\ (bp3a \/ bp3b \/ bp3c)
+CheckerTrue(I, m) == \A s \in S(I) : \A j \in 1 .. Len(I.prefs[s]) : ~CheckerBlocks(I, m, s, j)
+UpperRespecting(I) == {m \in AllM(I) : RespectsUpper(I, m)}
+CheckerEqDef == phase = "ready" /\ inst.two =>
+                    \A m \in UpperRespecting(inst) : CheckerTrue(inst, m) <=> Stable(inst, m)
+
 (* C07 *)
 BFEqDef == phase = "solved" /\ opts.bf => bf.res = BFSpec(inst, opts.pc)
 =============================================================================
